@@ -74,7 +74,7 @@ func init() {
 			}
 			return map[string][]string{"combo": want, "flip": {"to-system:plainctx", "to-system:sysctx", "to-ordinary:sysctx", "to-system-migrate:plainctx", "to-system-migrate:sysctx", "child-create-over-sysent-parent:plainctx:payload-flag=false", "child-create-over-sysent-parent:plainctx:payload-flag=true", "child-create-over-sysent-parent:sysctx:payload-flag=false",
 				"child-create-over-plainent-parent:plainctx:payload-flag=true", "child-create-over-plainent-parent:sysctx:payload-flag=true", "child-create-over-plainent-parent:plainctx:payload-flag=false"},
-				"system_context_via": {"GetSystemContext", "NewSystemMutateContext", "GetSystemContext twice", "NewSystemMutateContext over a system context", "ordinary after UpdateContext", "the context the transaction function is handed"},
+				"system_context_via": {"GetSystemContext", "NewSystemMutateContext", "GetSystemContext twice", "NewSystemMutateContext over a system context", "ordinary after UpdateContext", "the context the transaction function is handed", "a system context after UpdateContext"},
 				"child_constraint":   {"delete through the parent store from ordinary context", "delete through the child store from ordinary context", "update through the child store from ordinary context", "DeleteWhere through the parent store from ordinary context", "delete through the parent store from system context"},
 				"cascade":            {"any-system=true:ordinary:DeleteById", "any-system=true:ordinary:DeleteWhere", "any-system=true:system:DeleteById", "any-system=false:ordinary:DeleteById", "any-system=false:ordinary:DeleteWhere"},
 				"transaction_via":    {"Update", "Batch", "Update opened with a system context", "Batch opened with a system context"},
@@ -205,7 +205,13 @@ func runC16(c *core.Ctx, idx int) {
 			case 4:
 				use = ctx // the transaction was opened with a system context: what the function is handed must be one
 			}
-			c.Cover("system_context_via", []string{"GetSystemContext", "NewSystemMutateContext", "GetSystemContext twice", "NewSystemMutateContext over a system context", "the context the transaction function is handed"}[op.SysVia])
+			via := []string{"GetSystemContext", "NewSystemMutateContext", "GetSystemContext twice", "NewSystemMutateContext over a system context", "the context the transaction function is handed"}[op.SysVia]
+			if (len(op.Name)+len(op.Id)+op.SysVia)%3 == 0 {
+				// what UpdateContext hands back for a system context (a value put on its context.Context) is that system context
+				use = use.UpdateContext(func(cc context.Context) context.Context { return context.WithValue(cc, c16Key{}, "y") })
+				via = "a system context after UpdateContext"
+			}
+			c.Cover("system_context_via", via)
 		} else if op.SysVia == 1 {
 			// an ordinary context whose context.Context was replaced stays ordinary
 			use = ctx.UpdateContext(func(cc context.Context) context.Context { return context.WithValue(cc, c16Key{}, "x") })
